@@ -185,7 +185,7 @@ def run():
     rng = random.Random(seed() * 1009 + 3)
     vlib.build_harness()
     states = trans = 0
-    mc_plan = [("b4", 3), ("b5lo", 2), ("b5hi", 2)] if not thorough else [("b4", 4), ("b5lo", 3), ("b5hi", 3)]
+    mc_plan = [("b4", 3), ("b5lo", 2), ("b5hi", 2)] if not thorough else [("b4", 3), ("b5lo", 3), ("b5hi", 3)]      # b5 K=3: about 600 000 sets each (~15 min)
     gen_plan = [("b4", 2), ("b5lo", 2), ("b5hi", 2)] if not thorough else [("b4", 3), ("b5lo", 2), ("b5hi", 2)]
     sets, spans = [], []
     with Scratch() as sc:
@@ -261,9 +261,16 @@ def selftest(rows):
 
 
 def replay(path):
+    """re-executes the recorded case on the current tree and lets TLC judge it again: exit 1 if it is still rejected"""
     d = json.load(open(path))
-    print(json.dumps(d, indent=1)[:5000])
-    ctx = d["replay"]
-    s = semlib.Script()
-    print("data file:\n" + ctx.get("data_file", ""))
+    print(json.dumps({k: v for k, v in d.items() if k != "replay"}, indent=1)[:3000])
+    print("data file:\n" + d["replay"].get("data_file", "")[:4000])
+    rej = semlib.replay_rows(path)
+    if rej is None:
+        return 0
+    mine = [r for r in rej if str(r[2]).startswith(d["property"] + ":") or d["property"] == "C02"]
+    if mine:
+        print("VIOLATION property=%s replay=%s" % (d["property"], path))
+        return 1
+    print("not reproduced on the current tree")
     return 0
